@@ -107,6 +107,8 @@ extern ssize_t mpt_encode_cobs(MPT_STRUCT(encode_state) *info, const struct iove
 		/* message in progress */
 		if (info->_ctx) {
 			--len;
+			/* finished blocks of unfinished message */
+			pos = info->done + info->scratch - info->_ctx;
 		}
 		tmp.iov_base = (void *) src;
 		while (len--) {
